@@ -96,11 +96,24 @@ def _signed(ctx, fn, muts):
         ctx.lost('MPT-C25b', 'apply_signed_ticket must call verify_ticket_signature exactly once (found %d)' % len(ver))
         return
     ver = ver[0]
-    binding = [c for c in fn.calls() if c.name in ('ok_or_else', 'ok_or')
-               and lib.slice_back(fn, c.args[:1]).has_field('Toc', 'memory_binding')]
-    if not binding:
-        ctx.lost('MPT-C25b', 'binding-presence test (ok_or on toc.memory_binding) not found')
-        return
+    # edges on which toc.memory_binding is known to be Some: success of ok_or(_else)(…)? on it, or the Some arm of a match on it
+    def _is_binding(sl):
+        return sl.has_field('Toc', 'memory_binding') or bool(sl.calls_matching('Memvid::get_memory_binding'))
+    presence = []   # (src bb, target bb)
+    for c in fn.calls():
+        if c.name in ('ok_or_else', 'ok_or') and _is_binding(lib.slice_back(fn, c.args[:1])):
+            sb, how = fn.success_block(c)
+            if sb is not None and how != 'infallible':
+                presence.append((None, sb))
+    for vs in lib.variant_switches(fn):
+        if vs['enum'] == 'Option' and 'Some' in vs['arms'] and _is_binding(lib.slice_back(fn, [vs['place']])):
+            presence.append((vs['bb'], vs['arms']['Some']))
+
+    def _present_at(bb):
+        for src, tgt in presence:
+            if (src is None and fn.dominates(tgt, bb)) or (src is not None and lib.edge_dominates(fn, src, tgt, bb)):
+                return True
+        return False
     for m in muts:
         ctx.evaluations += 3
         problems = []
@@ -109,7 +122,7 @@ def _signed(ctx, fn, muts):
         if lib.find_guard(fn, m['bb'], '==', lambda s: s.has_field('SignedTicket', 'memory_id'),
                           lambda s: s.has_field('MemoryBinding', 'memory_id')) is None:
             problems.append('memory-id equality')
-        if not any(lib.call_success_dominates(fn, b, m['bb']) for b in binding):
+        if not _present_at(m['bb']):
             problems.append('binding presence')
         if problems:
             ctx.bad('MPT-C25b', fn, '%s not dominated by: %s' % (m['what'], ', '.join(problems)), line=m['line'],
